@@ -165,11 +165,11 @@ type nev struct {
 }
 
 type c06NodeCase struct {
-	N        int // records in o's list at suspicion start (incl. o and x)
-	Mult     int
-	MaxMult  int
-	Start    string // probe | third
-	Seq      []nev
+	N       int // records in o's list at suspicion start (incl. o and x)
+	Mult    int
+	MaxMult int
+	Start   string // probe | third
+	Seq     []nev
 }
 
 func (c c06NodeCase) String() string {
